@@ -120,9 +120,79 @@ class ConstEval:
         return out
 
     # -------------------------------------------------------------- anchors
+    def _module_value(self, b, name: str):
+        """Value of a module-level binding INCLUDING the module-level statements that change the object in place after it
+        (`TABLE.update({...})`, `TABLE[k] = v`, `LIST.append(x)`, `SET |= {...}`): a table that is completed after its
+        definition is what the program sees.  A mutation the evaluator does not model makes the name non-constant."""
+        import copy as _copy
+        val = self.eval(b.value, b.module, None, {})
+        body = b.module.tree.body
+        try:
+            start = body.index(b.node) + 1
+        except ValueError:
+            return val
+        muts = []
+        for st in body[start:]:
+            if isinstance(st, (ast.FunctionDef, ast.AsyncFunctionDef, ast.ClassDef, ast.Import, ast.ImportFrom)):
+                continue
+            hit = None
+            if isinstance(st, ast.Expr) and isinstance(st.value, ast.Call) and isinstance(st.value.func, ast.Attribute) \
+                    and isinstance(st.value.func.value, ast.Name) and st.value.func.value.id == name:
+                hit = ('call', st.value.func.attr, st.value)
+            elif isinstance(st, ast.Assign) and any(isinstance(t, ast.Subscript) and isinstance(t.value, ast.Name) and t.value.id == name for t in st.targets):
+                hit = ('setitem', None, st)
+            elif isinstance(st, ast.AugAssign) and isinstance(st.target, ast.Name) and st.target.id == name:
+                hit = ('aug', type(st.op).__name__, st)
+            elif isinstance(st, ast.Delete) and any(isinstance(t, ast.Subscript) and isinstance(t.value, ast.Name) and t.value.id == name for t in st.targets):
+                raise NotConst(f'{name} is changed by `del` after its definition')
+            elif isinstance(st, (ast.Assign, ast.AnnAssign)) and any(isinstance(n, ast.Name) and n.id == name and isinstance(n.ctx, ast.Store) for n in ast.walk(st)):
+                break       # re-bound: a later binding (resolve() returns the last one)
+            if hit:
+                muts.append(hit)
+        if not muts:
+            return val
+        try:
+            val = _copy.copy(val)
+        except Exception:
+            raise NotConst(f'{name} is changed in place after its definition')
+        cell = [val]
+        ev = lambda n: self.eval(n, b.module, None, {name: cell[0]})      # the statements may read the table they complete
+        for kind, what, st in muts:
+            val = cell[0]
+            try:
+                if kind == 'call':
+                    args = [ev(a) for a in st.args]
+                    if st.keywords:
+                        raise NotConst('keyword')
+                    if what in ('update', 'append', 'extend', 'add', 'setdefault') and hasattr(val, what):
+                        getattr(val, what)(*args)
+                    else:
+                        raise NotConst(f'{name}.{what}(...) after its definition is not modelled')
+                elif kind == 'setitem':
+                    v = ev(st.value)
+                    for t in st.targets:
+                        val[ev(t.slice)] = v
+                elif kind == 'aug':
+                    v = ev(st.value)
+                    if what == 'BitOr':
+                        val = val | v
+                    elif what == 'Add':
+                        val = val + v
+                    else:
+                        raise NotConst(f'{name} {what}= after its definition is not modelled')
+            except NotConst:
+                raise
+            except Exception as e:
+                raise NotConst(f'in-place change of {name} failed: {e}')
+            cell[0] = val
+        return cell[0]
+
     def module_const(self, modname: str, name: str):
         node, mod = self.prog.const_node(modname, name)
+        b = self.prog.resolve(self.prog.module(modname), name)
         try:
+            if b is not None and b.kind == 'assign' and b.value is node:
+                return self._module_value(b, name)
             return self.eval(node, mod)
         except NotConst as e:
             raise AnalysisError(f'{modname}.{name} is not a constant the evaluator can compute: {e}')
@@ -177,7 +247,7 @@ class ConstEval:
             if b is None:
                 raise NotConst(f'unresolved name {node.id}')
             if b.kind == 'assign':
-                return self._guard(('m', b.module.name, node.id), lambda: self.eval(b.value, b.module, None, {}))
+                return self._guard(('m', b.module.name, node.id), lambda: self._module_value(b, node.id))
             if b.kind == 'class':
                 return ClassRef(b.value)
             raise NotConst(f'name {node.id} is a {b.kind}')
